@@ -58,7 +58,8 @@ def pinned_c03():
                 endpoint("bin", "POST", "/lim/bin", [arg("body", prim("BINARY"), "body")], tags=["server-limit-request-size: 1kb"]),
             ])])),
         # endpoint names that are also methods of the generated client / trait items
-        ("C03-endpoint-named-like-std-methods", definition([], [service("StdNamesService", P, [endpoint(n, "GET", "/std/" + n) for n in ["clone", "default", "drop", "into", "from", "eq", "hash", "fmt", "new", "endpoints"]])])),
+        ("C03-endpoint-named-like-std-methods", definition([], [service("StdNamesService", P, [endpoint(n, "GET", "/std/" + n) for n in ["clone", "default", "drop", "into", "from", "eq", "hash", "fmt", "new", "endpoints", "cmp", "next", "borrow", "asRef", "toString", "toOwned", "tryInto", "deref",
+                                                                                                                                       "handle", "send", "unwrap", "map", "get", "name", "path", "method", "call", "poll", "sync", "serialize", "len", "isEmpty", "iter", "takeEndpoints"]])])),
         # shapes earlier seeded changes needed (one definition, compiled in every run)
         ("C03-regression-shapes", __import__("gen").regression_compile_definition()),
         ("C03-type-named-option-without-double", definition([obj("Option", P, [field("x", opt(S))]), union("Some", P, [field("a", S)]), enum("None", P, ["A"])])),
